@@ -45,8 +45,32 @@ impl SchemaCatalog {
         if self.table_idxs.contains_key(&name) {
             return Err(CatalogError::Duplicated("table", name));
         }
+        let table_id = self.reserve_table_id();
+        self.add_table_with_id(table_id, name, columns, ordered_pk_ids)
+    }
+
+    /// Reserves the id for a table that is added later by [`Self::add_table_with_id`].
+    pub(super) fn reserve_table_id(&mut self) -> TableId {
         let table_id = self.next_id;
         self.next_id += 1;
+        table_id
+    }
+
+    /// Adds a table with a given id (reserved before, or recorded when the table was created).
+    pub(super) fn add_table_with_id(
+        &mut self,
+        table_id: TableId,
+        name: String,
+        columns: Vec<ColumnCatalog>,
+        ordered_pk_ids: Vec<ColumnId>,
+    ) -> Result<TableId, CatalogError> {
+        if self.table_idxs.contains_key(&name)
+            || self.tables.contains_key(&table_id)
+            || self.indexes.contains_key(&table_id)
+        {
+            return Err(CatalogError::Duplicated("table", name));
+        }
+        self.next_id = self.next_id.max(table_id + 1);
         let table_catalog = Arc::new(TableCatalog::new(
             table_id,
             name.clone(),
